@@ -153,7 +153,7 @@ def g_dfs(ck: Check, rule: str) -> None:
             if scheduled:
                 ck.ob(rule, fm, st, True, "popped successor is scheduled")
                 continue
-            pc = dom_pc_text(fm, cn, ids)
+            pc = dom_pc_canon(fm, cn, ids)
             allowed = [logic.B(f"in:{L}[-1]|{seen}")] if seen else []
             allowed += _extra_reasons(fm, loop, L, cur, extra, ck, rule)
             want = logic.Or(*allowed) if allowed else logic.FALSE
@@ -181,27 +181,35 @@ def _seen_name(fm: FuncModel, loop) -> str | None:
 def _extra_reasons(fm: FuncModel, loop, L: str, cur: str, extra: set[str], ck: Check, rule: str):
     out = []
     if "NOUNCOVERED" in extra:
-        # len([s for s in U if is_subspace(s, <space of current node>)]) == 0, U shrunk only by exact removal
+        # "no uncovered minimal trap space lies inside the current node": not any(is_subspace(m, <space of cur>) for m in U)
+        # in any of its spellings; U shrunk only by exact removal
+        done = set()
         for n in ast.walk(loop):
-            if isinstance(n, ast.Compare) and isinstance(n.left, ast.Call) and callee_name(n.left) == "len" \
-                    and isinstance(n.left.args[0], ast.ListComp):
-                lc = n.left.args[0]
-                g = lc.generators[0]
-                ok = len(lc.generators) == 1 and len(g.ifs) == 1 and isinstance(g.ifs[0], ast.Call) \
-                    and callee_name(g.ifs[0]) == "is_subspace" and text(g.ifs[0].args[0]) == text(g.target)
-                if ok:
-                    sp = g.ifs[0].args[1]
-                    at = fm.cfgn(n)
-                    okspace = fm.key(sp, at) == f"FIELD<sd|{cur}|space>"
-                    U = text(g.iter)
-                    shr = _uncovered_ok(fm, U, cur)
-                    if okspace and shr is None:
-                        out.append(logic.Not(logic.Lt("0", f"len({text(lc)})")))
-                    else:
-                        ck.ob(rule, fm, fm.f.stmt_of(n), False,
-                              ("the 'nothing left to find below this node' test compares minimal traps with "
-                               f"`{text(sp)}`, not with the space of the current node") if not okspace else shr,
-                              key="uncovered test")
+            q = logic.quantifier(n)
+            if q is None:
+                continue
+            pos, it, var, cond = q
+            if not (isinstance(cond, ast.Call) and callee_name(cond) == "is_subspace" and len(cond.args) == 2
+                    and isinstance(cond.args[0], ast.Name) and cond.args[0].id == var):
+                continue
+            at = fm.cfgn(n)
+            f_ = fm.translator(at).f(n)
+            atom = f_[1] if f_[0] == "not" else f_
+            if repr(atom) in done:
+                continue
+            done.add(repr(atom))
+            sp = cond.args[1]
+            at = fm.cfgn(n)
+            okspace = fm.key(sp, at) == f"FIELD<{fm.f.params()[0]}|{cur}|space>"
+            U = text(it)
+            shr = _uncovered_ok(fm, U, cur)
+            if okspace and shr is None:
+                out.append(logic.Not(atom))
+            else:
+                ck.ob(rule, fm, fm.f.stmt_of(n), False,
+                      ("the 'nothing left to find below this node' test compares minimal traps with "
+                       f"`{text(sp)}`, not with the space of the current node") if not okspace else shr,
+                      key="uncovered test")
     if "NOSEEDS" in extra:
         for n in ast.walk(loop):
             if isinstance(n, ast.Assign) and isinstance(n.value, ast.Call) and callee_name(n.value) == "compute_fixed_point_reduced_STG":
@@ -455,7 +463,7 @@ def skip_edges(ck: Check, rule: str) -> None:
                     if not (k2.startswith("FIELD<") and k2.endswith("|space>") and f"|{g.parent_expr.id if isinstance(g.parent_expr, ast.Name) else ''}|" in k2):
                         probs.append(f"minimal traps are compared with `{second}`, not with the space of the node that gets the edges")
             for x in ast.walk(tl):
-                if isinstance(x, (ast.Break, ast.Continue, ast.Return)):
+                if isinstance(x, (ast.Break, ast.Return)):
                     probs.append(f"line {x.lineno}: `{text(x)}` skips minimal trap spaces")
         ck.ob(rule, fm, f.node, not probs, "; ".join(sorted(set(probs))) if probs else
               "skip edges lead to every minimal trap space inside the node", key="skip edges")
